@@ -8,15 +8,18 @@ PROP = 'C18'
 LEAN_TARGETS = ['Props.C18']
 REQUIRED_THEOREMS = ['Props.C18.split_concat', 'Props.C18.split_sizes', 'Props.C18.split_perm',
                      'Props.C18.loader_len_floor', 'Props.C18.loader_batch_exact', 'Props.C18.loader_covers_prefix',
-                     'Props.C18.oneHot_row', 'Props.C18.loader_reiterable', 'Props.C18.loops_all_from_start']
+                     'Props.C18.oneHot_row', 'Props.C18.loader_reiterable', 'Props.C18.loops_all_from_start', 'Props.C18.oneHot_map_strictMono', 'Props.C18.oneHot_distinct_columns']
 RULE = ('split: every n in a range x test fraction x val fraction (or none) x shuffle off / on with a drawn seed; '
         'loader: (nx, ny, batch) incl. batch 0, batch > n, with and without transform (callable object, DataLoaderCallback subclass, falsy callable, plain function), iterated twice; programs of 2-5 successive for-loops over one loader object, each abandoned after k batches (break, or explicit iter/next) or exhausted; '
-        'one-hot: random integer label lists. A case is non-trivial when n > 0 (and, for split, at least two parts are '
+        'one-hot: label sets of every kind (integers of every width incl. negative and beyond 2^53, booleans, strings incl. prefixes / the empty string / non-ASCII, '
+        'float64 and float32 labels: ordinary ones, consecutive large class ids, 1 + k*1e-6, tiny and denormal magnitudes, chains of ADJACENT floats (np.nextafter), both zeros, infinities, Python int/float mixtures), '
+        'unsorted with repeats, handed over as ndarray / list / tuple / the float32 array split_dataset returns; the labels reach the model through an order-preserving injection into the integers '
+        '(floats: sign-magnitude bit pattern, strings: code points in a fixed-width positional system), so the model compares labels EXACTLY. A case is non-trivial when n > 0 (and, for split, at least two parts are '
         'non-empty or a shuffle happened); distinct = distinct protocol line')
 EXHAUSTIVE = {'quick': False, 'thorough': False}
 ASSUMPTIONS = ['np.random.shuffle is deterministic given the global seed (the permutation is captured from it)',
                'np.floor / float multiply are IEEE binary64 as in Lean Float']
-TRUSTED_BASE = ['harness/props/c18.py (generator, canonicalisation)']
+TRUSTED_BASE = ['harness/props/c18.py (generator, canonicalisation, order-preserving injection of labels into the integers)']
 
 FRACS = [0.0, 0.1, 0.2, 0.25, 0.29, 0.3, 1 / 3, 0.5, 0.57, 0.7, 0.9, 0.99, 1.0, 0.15, 0.35, 0.44, 0.6, 0.72, 0.8, 0.85, 0.95]
 NS_EXACT = [10, 20, 25, 40, 50, 100]      # lengths for which many fractions give an exact integer (where floor and ceil roundings differ)
@@ -56,10 +59,142 @@ def cases(rng, tier):
         k = rng.randint(0, 12)
         lo = rng.randint(-5, 3)
         out.append({'kind': 'onehot', 'ys': [rng.randint(lo, lo + rng.randint(0, 6)) for _ in range(k)]})
+    # label sets of every type: each family at least twice per run (quick), then random ones
+    fams = list(LABEL_FAMILIES)
+    for j in range(3 * len(fams) if tier == 'quick' else 60 * len(fams)):
+        out.append(_gen_labels(rng, fams[j % len(fams)]))
     for c in out:
         c['lines'] = [_line(c)]
-        c['desc'] = c['lines'][0]
+        c['desc'] = c['lines'][0] if 'fam' not in c else f"one_hot_encode of the {c['fam']} labels {c['ys']!r} ({c['dtype'] or 'python values'} in a {c['cont']}) : {c['lines'][0]}"[:700]
     return out
+
+
+# ---- one-hot: labels of any type -------------------------------------------------------------------
+# The model (lean/SynapModel/Data.lean `oneHot`) works over integers and compares them exactly.  A label set of another type is
+# sent through an ORDER-PRESERVING INJECTION into the integers (so "index among the sorted distinct labels" is the same number on
+# both sides): booleans 0/1; floats by their sign-magnitude bit pattern (-0.0 and 0.0, which are equal, both map to 0); strings
+# (NumPy orders them by code point) as numbers in base 0x110001 with digit = code point + 1, padded to the longest label.
+LABEL_FAMILIES = ['int', 'int-narrow', 'int-big', 'bool', 'str', 'f-ordinary', 'f-ids', 'f-fine', 'f-tiny', 'f-adjacent', 'f-zero', 'f-inf', 'py-mixed']
+
+
+def _fkey(x):
+    b = fbits(float(x))
+    return -(b & 0x7FFFFFFFFFFFFFFF) if b >> 63 else b
+
+
+def _label_keys(c):
+    if 'lt' not in c:
+        return c['ys']
+    ys = c['ys']
+    if c['lt'] == 'str':
+        L = max([len(v) for v in ys] + [0])
+        return [sum((ord(ch) + 1) * 0x110001 ** (L - 1 - i) for i, ch in enumerate(v)) for v in ys]
+    if c['lt'] == 'bool':
+        return [int(v) for v in ys]
+    if c['lt'].startswith('int'):
+        return [int(v) for v in ys]
+    return [_fkey(v) for v in ys]
+
+
+def _f32(v):
+    with np.errstate(all='ignore'):
+        return float(np.float32(v))
+
+
+def _gen_labels(rng, fam):
+    """a label list drawn (unsorted, with repeats) from a pool of distinct labels of one family"""
+    dtype, m = None, rng.randint(1, 6)
+    if fam == 'int':
+        lo = rng.pick([-1000, -7, -1, 0, 0, 1, 5, 100, 32760, 10 ** 5, 10 ** 9])
+        pool = [lo + k * rng.pick([1, 1, 1, 2, 10]) for k in range(m)]
+        dtype = rng.pick(['int64', 'int64', 'int32', None])
+    elif fam == 'int-narrow':
+        dtype = rng.pick(['int8', 'uint8', 'int16', 'uint16'])
+        info = np.iinfo(dtype)
+        pool = sorted(set([info.min, info.max] + [rng.randint(info.min, info.max) for _ in range(m)]))
+    elif fam == 'int-big':
+        base = rng.pick([2 ** 53, 2 ** 53 - 2, 2 ** 62, -2 ** 62, -2 ** 53, 2 ** 31 - 3, -2 ** 31 - 2, 2 ** 24 - 1])
+        pool = [base + k for k in range(m + 1)]
+        dtype = 'int64'
+    elif fam == 'bool':
+        pool = [False, True] if rng.chance(.8) else [rng.chance(.5)]
+        dtype = rng.pick(['bool', None])
+    elif fam == 'str':
+        al = rng.pick(['ab', 'abc', 'aAbB01', 'xyz_ -', 'a\u00e9\u00dfz\u4e2d'])
+        pool = sorted(set(''.join(rng.pick(al) for _ in range(rng.randint(0, 3))) for _ in range(m + 2)))
+        if rng.chance(.5):      # a label, its prefixes and extensions
+            w = pool[-1] or 'a'
+            pool = sorted(set(pool + [w[:1], w, w + w[0], w + al[0]]))
+    elif fam == 'f-ordinary':
+        pool = rng.pick([[k / 2 for k in range(-2, m)], [k / 3 for k in range(m + 1)], [float(k) for k in range(m + 1)],
+                         [rng.dyadic() for _ in range(m + 1)], [0.1 * k for k in range(m + 1)]])
+        dtype = rng.pick(['float64', 'float32', None])
+    elif fam == 'f-ids':          # consecutive large class ids
+        base = rng.pick([1e5, 123456.0, 1e6, 2.0 ** 24 - 8, 99999.0, -1e5, 1e7, 1e9, 2.0 ** 52, 1e15])
+        pool = [base + k for k in range(m + 1)]
+        dtype = rng.pick(['float64', 'float32', None]) if abs(base) < 2 ** 24 else rng.pick(['float64', None])
+    elif fam == 'f-fine':         # finely spaced levels
+        base, step = rng.pick([(1.0, 1e-6), (1.0, 1e-7), (1.0, 1e-9), (100.0, 1e-4), (-3.0, 1e-6), (0.5, 1e-12), (1e3, 1e-3)])
+        pool = [base + k * step for k in range(m + 1)]
+        dtype = rng.pick(['float64', 'float64', None, 'float32'])
+    elif fam == 'f-tiny':         # tiny magnitudes, denormals
+        unit = rng.pick([1e-9, 1e-12, 2.5e-9, 1e-30, 1e-300, 5e-324, 1e-8]) * rng.pick([1, 1, -1])
+        pool = [k * unit for k in range(0 if rng.chance(.5) else 1, m + 2)]
+        dtype = rng.pick(['float64', None, 'float32'])
+    elif fam == 'f-adjacent':     # neighbours in the floating-point grid
+        f32 = rng.chance(.35)
+        ty = np.float32 if f32 else np.float64
+        x = ty(rng.pick([1.0, -1.0, 0.1, 1e5, 3.0, 1e-9, -2.5e6, 1e300 if not f32 else 1e30, 7e-310 if not f32 else 1e-40, rng.uniform(-10, 10), 2.0 ** rng.randint(-30, 30)]))
+        pool = [float(x)]
+        for _ in range(m):
+            x = np.nextafter(x, ty(np.inf)); pool.append(float(x))
+        dtype = 'float32' if f32 else rng.pick(['float64', None])
+    elif fam == 'f-zero':
+        t = rng.pick([5e-324, 1e-300, 1e-12])
+        pool = [-t, -0.0, 0.0, t] if rng.chance(.7) else [-0.0, 0.0, 1.0]
+        dtype = rng.pick(['float64', None])
+    elif fam == 'f-inf':
+        pool = [float('-inf'), -1.7e308, -1.0, 0.0, 1.7e308, 1.797e308, float('inf')]
+        pool = sorted(rng.sample(pool, rng.randint(2, len(pool))))
+        dtype = rng.pick(['float64', None])
+    else:                         # a Python list mixing ints and floats
+        pool = [1, 2.5, 2, -1, 0.5, 3.0, 10 ** 6, 10 ** 6 + 0.5][:m + 2]
+    if dtype == 'float32':
+        pool = sorted(set(_f32(v) for v in pool))
+    n = rng.pick([0, 1, 2]) if rng.chance(.08) else rng.randint(2, 14)
+    ys = [rng.pick(pool) for _ in range(n)]
+    if n > len(pool) and rng.chance(.7):          # every label of the pool occurs
+        ys[:len(pool)] = pool
+        rng.shuffle(ys)
+    exact32 = fam != 'str' and fam != 'bool' and all(_f32(v) == v for v in ys if not (isinstance(v, float) and math.isinf(v))) and fam != 'f-inf'
+    cont = rng.pick(['array', 'array', 'list', 'tuple'] + (['split'] if exact32 and n else []))
+    lt = fam if fam in ('str', 'bool') else ('int' if fam.startswith('int') else 'float')
+    return {'kind': 'onehot', 'fam': fam, 'lt': lt, 'dtype': dtype, 'cont': cont, 'ys': ys}
+
+
+def _labels_arg(c):
+    """the labels as the caller hands them over: ndarray of the dtype, list / tuple of Python values or of NumPy scalars of the
+    dtype, or the float32 array `split_dataset` returns for them"""
+    if 'lt' not in c:
+        return np.array(c['ys'], dtype=np.int64)
+    ys = c['ys']
+    arr = np.array(ys, dtype=c['dtype']) if c['dtype'] else None
+    if arr is not None and c['lt'] != 'str':      # nothing was lost on the way into the array
+        assert [(_fkey(v) if c['lt'] == 'float' else int(v)) for v in arr.tolist()] == _label_keys(c), (c, arr)
+    if c['cont'] == 'split':
+        from synapgrad.nn.utils.data import split_dataset
+        (_, ty), _, _ = split_dataset(np.zeros((len(ys), 1)), ys if arr is None else arr, test_split=0.0)
+        assert ty.dtype == np.float32 and [float(v) for v in ty] == [float(v) for v in ys]
+        return ty
+    if c['cont'] == 'array':
+        return arr if arr is not None else np.array(ys)
+    items = list(ys) if arr is None else list(arr)       # Python values, or NumPy scalars of the dtype
+    return items if c['cont'] == 'list' else tuple(items)
+
+
+def _run_onehot(c):
+    from synapgrad.nn.utils.data import one_hot_encode
+    return one_hot_encode(_labels_arg(c))
 
 
 def _perm(c):
@@ -77,7 +212,7 @@ def _line(c):
         return f"data loader {c['nx']} {c['ny']} {c['b']}"
     if c['kind'] == 'loops':
         return f"data loops {c['nx']} {c['ny']} {c['b']} {show_ints(c['ks'])}"
-    return f"data onehot {show_ints(c['ys'])}"
+    return f"data onehot {show_ints(_label_keys(c))}"
 
 
 def _positions(Xp, yp):
@@ -206,8 +341,7 @@ def impl(c):
         n, bs = r
         s = '|'.join(show_ints(x) + ';' + show_ints(y) for x, y in bs) if bs else '_'
         return [f"len={n} batches={s}"]
-    from synapgrad.nn.utils.data import one_hot_encode
-    r = outcome(lambda: one_hot_encode(np.array(c['ys'], dtype=np.int64)))
+    r = outcome(lambda: _run_onehot(c))
     if isinstance(r, str):
         return [r]
     rows = [list(map(int, row)) for row in r]
@@ -229,6 +363,9 @@ def distribution(cases):
     d = {}
     for c in cases:
         k = c['kind'] + ('/shuffle' if c.get('seed') is not None else '') + ('/val' if c.get('vf') is not None else '')
+        if c['kind'] == 'onehot' and 'fam' in c:
+            k += f"/{c['fam']}"
+            d[f"onehot labels as {c['dtype'] or 'python values'} in a {c['cont']}"] = d.get(f"onehot labels as {c['dtype'] or 'python values'} in a {c['cont']}", 0) + 1
         d[k] = d.get(k, 0) + 1
     return d
 
@@ -288,15 +425,20 @@ def oracle(c):
                 return {'key': {'kind': 'loops', 'class': 'not-from-start'}, 'case': c,
                         'what': f'loop {j} (taking at most {k} batches after loops taking {c["ks"][:j]}) saw {seen}, expected the first {min(k, L)} batches {exp}'}
         return None
-    from synapgrad.nn.utils.data import one_hot_encode
-    r = outcome(lambda: one_hot_encode(np.array(c['ys'], dtype=np.int64)))
+    r = outcome(lambda: _run_onehot(c))
+    cc = {k: v for k, v in c.items() if k not in ('lines', 'desc')}
+    key = {'kind': 'onehot', 'labels': c.get('lt', 'int')}
     if isinstance(r, str):
-        return None if not c['ys'] else {'key': {'kind': 'onehot', 'class': 'rejected'}, 'case': c, 'what': 'one_hot_encode raised'}
-    u = sorted(set(c['ys']))
-    for row, yv in zip(r, c['ys']):
+        return None if not c['ys'] else {'key': dict(key, **{'class': 'rejected'}), 'case': cc, 'what': f'one_hot_encode raised on the {c.get("fam", "int")} labels {c["ys"]}'}
+    ys = [float(v) for v in c['ys']] if c.get('fam') == 'py-mixed' else c['ys']
+    u = sorted(set(ys))                      # Python's exact comparison of the label values (-0.0 == 0.0)
+    if len(r) != len(ys):
+        return {'key': dict(key, **{'class': 'rows'}), 'case': cc, 'what': f'{len(r)} rows for {len(ys)} labels'}
+    for row, yv in zip(r, ys):
         exp = [1 if u[k] == yv else 0 for k in range(len(u))]
         if list(map(int, row)) != exp:
-            return {'key': {'kind': 'onehot', 'class': 'row'}, 'case': c, 'what': f'label {yv} encoded as {list(row)}, expected {exp}'}
+            return {'key': dict(key, **{'class': 'row'}), 'case': cc,
+                    'what': f'label {yv!r} encoded as {list(map(int, row))}, expected {exp}: the unit vector at index {u.index(yv)} of the sorted distinct labels {u}'}
     return None
 
 
